@@ -6,13 +6,13 @@ import random
 import time
 
 from sim.core import COMPONENTS, EXIT_OK, EXIT_VIOLATION, REPO_SRC, VERIF, H, HarnessError, digest, jdump, log, write_evidence
-from sim.engine import Engine, load_known, match_known, write_replay
+from sim.engine import Engine, dump_digests, load_known, match_known, write_replay
 from sim.popgen import date_pool
 
 PROP = "C02"
 TIERS = {
-    "quick": {"runs": 48, "pairs_per_run": 3, "n_random": 2, "n_relabel": 3, "max_first": 2, "rows": (1, 7), "selftest": 4},
-    "thorough": {"runs": 1600, "pairs_per_run": 4, "n_random": 3, "n_relabel": 4, "max_first": 4, "rows": (1, 9), "selftest": 32},
+    "quick": {"runs": 48, "pairs_per_run": 3, "n_random": 2, "n_relabel": 3, "max_first": 2, "rows": (1, 7), "selftest": 4, "crowd": [270, 270, 420, 1100]},
+    "thorough": {"runs": 1600, "pairs_per_run": 4, "n_random": 3, "n_relabel": 4, "max_first": 4, "rows": (1, 9), "selftest": 32, "crowd": [270, 420, 1100, 2600]},
 }
 
 
@@ -43,7 +43,7 @@ def run_check(tier: str, seed: int, runs: int | None = None, parallel: int | Non
     T = dict(TIERS[tier])
     if runs:
         T["runs"] = runs
-    cfg = {"dates": date_pool(REPO_SRC), **{k: T[k] for k in ("pairs_per_run", "n_random", "n_relabel", "max_first", "rows")}, "sample": True}
+    cfg = {"dates": date_pool(REPO_SRC), **{k: T[k] for k in ("pairs_per_run", "n_random", "n_relabel", "max_first", "rows", "crowd")}, "sample": True}
     engine = Engine(seed, parallel)
     open_known, _ = load_known(PROP)
     known_lines, viol_lines = [], []
@@ -64,6 +64,7 @@ def run_check(tier: str, seed: int, runs: int | None = None, parallel: int | Non
             return res
 
         results = engine.map_runs(one, range(T["runs"]), progress=max(16, T["runs"] // 8))
+        dump_digests(PROP, results)
         st = sorted(random.Random(H(seed, PROP, "selftest")).sample(range(T["runs"]), min(T["selftest"], T["runs"])))
         again = engine.map_runs(lambda slot, j: one(engine.slots[(st[j] + 5) % len(engine.slots)], st[j])["log_digest"], range(len(st)))
         mism = [st[j] for j in again if again[j] != results[st[j]]["log_digest"]]
@@ -71,7 +72,7 @@ def run_check(tier: str, seed: int, runs: int | None = None, parallel: int | Non
             raise HarnessError(f"determinism self-test failed for run indices {mism}")
 
         S = {"pairs": 0, "computes": 0, "E": 0, "C": 0, "F": 0, "unresolved": 0, "families": {}, "dates": set(), "nontrivial": set(), "trivial": 0, "setup_failed": 0,
-             "ref_exc": {}, "b_fails_alone": 0, "bmodes": {}, "nodes": 0}
+             "ref_exc": {}, "b_fails_alone": 0, "bmodes": {}, "nodes": 0, "crowds": {}}
         samples, found = [], []
         for i in sorted(results):
             r = results[i]
@@ -88,6 +89,9 @@ def run_check(tier: str, seed: int, runs: int | None = None, parallel: int | Non
                 for k in ("E", "C", "F", "unresolved", "b_fails_alone"):
                     S[k] += c[k]
                 S["bmodes"][c["bmode"]] = S["bmodes"].get(c["bmode"], 0) + 1
+                if c.get("crowd"):
+                    ck = f"{c['crowd'][1]}>={(c['crowd'][0] // 100) * 100}"
+                    S["crowds"][ck] = S["crowds"].get(ck, 0) + 1
                 for fam in c["variants"]:
                     S["families"][fam] = S["families"].get(fam, 0) + 1
                 if c["ref"] != "frame":
@@ -143,7 +147,8 @@ def run_check(tier: str, seed: int, runs: int | None = None, parallel: int | Non
         "trivial_cases": S["trivial"],
         "simulate_A_raised": S["ref_exc"],
         "setup_failed_runs": S["setup_failed"],
-        "identifier_bounds": {"p_id": "< 1e6", "hh_id": "< 1e4"},
+        "identifier_bounds": {"p_id": "< 1e6 for sparse/random maps, up to 2**62 for the 'huge' relabelling", "hh_id": "< 1e4"},
+        "crowds": S["crowds"],
         "policy_dates_drawn": len(S["dates"]),
         "policy_date_span": [min(S["dates"]), max(S["dates"])] if S["dates"] else [],
         "simulated_time": "none (no clock, no concurrency, no faults in this property; the schedule is the interleaving of two row producers)",
